@@ -29,6 +29,15 @@ def scen_ListDataset():
         yield 'ListDataset(tuple)[%d]' % n, ListDataset(tuple(vals)), Ref([('v', v) for v in vals]), []
 
 
+def scen_NumpySerializedList():
+    # immutable_warranty='wu': a ListDataset over the numpy-serialised list
+    import lazy_dataset
+    for n in (1, 2, 3, 5):      # n = 0 cannot be constructed in this mode (np.concatenate of no arrays: ValueError)
+        vals = [10 * (i + 1) for i in range(n)]
+        yield "from_list(%r, immutable_warranty='wu')" % (vals,), lazy_dataset.from_list(list(vals), immutable_warranty='wu'), \
+            Ref([('v', v) for v in vals]), []
+
+
 def scen_DictDataset():
     from lazy_dataset.core import DictDataset
     for n in (0, 1, 2, 5):
